@@ -16,5 +16,5 @@ ASSUMPTIONS = ["scheduler model (symex/sched.py): goroutine bodies run at the sp
                "wall-clock lateness of the Go scheduler and the runtime itself are outside the claim"]
 EXPLANATION = ""
 CLAIMED = True
-LEVEL_TEXT = "Bounded model checking of the real collectMeasurements / MeasureClockOffsets (incl. the drain goroutine and the deferred counter release) under a scheduler model in which the arrival order of the senders, which of them succeed, and the select at which the deadline fires are all symbolic: results stored exactly once at the front, nothing else written, all successes collected when the deadline does not fire, every send received (no goroutine left blocked), the in-progress counter released, a second collection / length mismatch refused."
-LEVEL_NOTE = "n <= 4 (quick) / 6 clocks; scheduler model as stated in symex/sched.py (goroutine bodies run at their spawn point, sends pending until received in arbitrary order, select takes any ready case); a select at which nothing ever becomes ready is outside the model; counterexamples that depend on the schedule cannot be replayed natively and would be reported as inconclusive, not as violations."
+LEVEL_TEXT = "Bounded model checking of the real collectMeasurements / MeasureClockOffsets (incl. the drain goroutine and the deferred counter release) under a scheduler model in which the arrival order of the senders, which of them succeed, and the select at which the deadline fires are all symbolic: results stored exactly once at the front, nothing else written, all successes collected when the deadline does not fire, every send received (no goroutine left blocked), no wait after the deadline case was taken and no iteration beyond the unwinding bound (the round ends by its deadline), the in-progress counter released, a second collection / length mismatch refused."
+LEVEL_NOTE = "n <= 4 (quick) / 6 clocks; scheduler model as stated in symex/sched.py (goroutine bodies run at their spawn point, sends pending until received in arbitrary order, select takes any ready case); a select at which nothing ever becomes ready is outside the model; a counterexample's schedule (event at which each result is received, event at which the deadline fires) is replayed natively in a testing/synctest bubble as completion times and a context deadline: a hang reproduces as a test time-out, a goroutine left behind as synctest's deadlock panic, a late return as a failed deadline assertion on the virtual clock."
